@@ -957,6 +957,67 @@ func c06Extents(p *core.Program, r *core.Report) {
 		return out
 	}
 	sliceKey := func(e ast.Expr) string { return types.ExprString(ast.Unparen(e)) }
+	// helpers whose body is an extent check on their own parameters
+	extentHelpers := map[*types.Func]bool{}
+	for _, fd := range core.AllFuncDecls(rp) {
+		if fd.Body == nil || fd.Recv != nil {
+			continue
+		}
+		fobj, _ := info.Defs[fd.Name].(*types.Func)
+		if fobj == nil {
+			continue
+		}
+		params := map[types.Object]bool{}
+		var sliceParam types.Object
+		for _, fld := range fd.Type.Params.List {
+			for _, nm := range fld.Names {
+				o := info.Defs[nm]
+				params[o] = true
+				if isByteSlice(o.Type()) {
+					sliceParam = o
+				}
+			}
+		}
+		if sliceParam == nil {
+			continue
+		}
+		ast.Inspect(fd.Body, func(n ast.Node) bool {
+			be, ok := n.(*ast.BinaryExpr)
+			if !ok {
+				return true
+			}
+			switch be.Op {
+			case token.LSS, token.LEQ, token.GTR, token.GEQ:
+			default:
+				return true
+			}
+			for _, pair := range [][2]ast.Expr{{be.X, be.Y}, {be.Y, be.X}} {
+				hasLen := false
+				ast.Inspect(pair[0], func(m ast.Node) bool {
+					if c, ok := m.(*ast.CallExpr); ok && core.BuiltinName(info, c) == "len" && len(c.Args) == 1 {
+						if id, ok := ast.Unparen(c.Args[0]).(*ast.Ident); ok && info.ObjectOf(id) == sliceParam {
+							hasLen = true
+						}
+					}
+					return true
+				})
+				if !hasLen {
+					continue
+				}
+				ast.Inspect(pair[1], func(m ast.Node) bool {
+					if add, ok := m.(*ast.BinaryExpr); ok && add.Op == token.ADD {
+						for o := range objsOf(add) {
+							if params[o] {
+								extentHelpers[fobj] = true
+							}
+						}
+					}
+					return true
+				})
+			}
+			return true
+		})
+	}
 	nSites := 0
 	for _, fd := range core.AllFuncDecls(rp) {
 		if fd.Body == nil || !decode[core.FuncName(fd)] {
@@ -1053,6 +1114,26 @@ func c06Extents(p *core.Program, r *core.Report) {
 				for _, st := range sites {
 					if st.call == c && s&st.bit == 0 {
 						bad[st] = true
+					}
+				}
+				// an extent check extracted into a helper: g(data, off, size) whose body
+				// compares len(<its slice parameter>) with a sum of its other parameters
+				if g := core.CalleeOf(info, c); g != nil && g.Pkg() == rp.Types && extentHelpers[g] {
+					for _, st := range sites {
+						passesSlice, passesOff := false, false
+						for _, a := range c.Args {
+							if sliceKey(a) == st.slice {
+								passesSlice = true
+							}
+							for o := range objsOf(a) {
+								if st.offs[o] {
+									passesOff = true
+								}
+							}
+						}
+						if passesSlice && passesOff {
+							s |= st.bit
+						}
 					}
 				}
 			}
